@@ -43,6 +43,10 @@ def build(case, key_int=1):
     act = case.get("act", "gelu")
     if cls in ("ConvBlock", "ConvBlockPre"):
         pre = cls == "ConvBlockPre"
+        if pre:
+            # the library builds norm / nonlinearity from output_keys but applies them to the INPUT in preactivation
+            # order, so (as inside ResNet) the block is only meaningful with input_keys == output_keys
+            outs, out_sig = ins, in_sig
         if eq:
             # preactivation order normalises / activates the INPUT: the block maps in_sig types to out_sig types
             model = models.ConvBlock(D, ins, outs, activation_f=act, use_group_norm=case.get("norm", False), preactivation_order=pre, **common)
